@@ -32,8 +32,8 @@ def run(run):
         E = effects.Effects(F)
         run.count('units')
         run.count('functions', len(F.fns))
-        one(run, F, E)
-        qualified_calls(run, F, E)
+        run.guard('one', one, run, F, E)
+        run.guard('qualified calls', qualified_calls, run, F, E)
         facts.drop(F)
         cfgmod.clear_cache()
     run.floor('C15.a', 45)
